@@ -1,6 +1,8 @@
 package cmd
 
 import (
+	"fmt"
+
 	"github.com/evolbioinfo/goalign/align"
 	"github.com/evolbioinfo/goalign/io"
 	"github.com/spf13/cobra"
@@ -24,6 +26,12 @@ goalign stats char -i align.fasta
 `,
 	RunE: func(cmd *cobra.Command, args []string) (err error) {
 		var aligns *align.AlignChannel
+
+		if len(charstatonly) != 1 {
+			err = fmt.Errorf("--only takes exactly one character (or * for all characters): %q", charstatonly)
+			io.LogError(err)
+			return
+		}
 
 		if aligns, err = readalign(infile); err != nil {
 			io.LogError(err)
